@@ -88,6 +88,23 @@ def equal_variants(g, t):
     except Exception:  # noqa: BLE001
         pass
     out += serial_variants(t)
+    # sibling slices whose only difference is a pair of values with colliding CPython hashes (-1 / -2, 0 / 2**61-1):
+    # the same cells supplied in two orders are the same triangle
+    try:
+        a_, b_ = g.r.choice([(-1, -2), (-1.0, -2.0), (0, 2**61 - 1)])
+        md = cells[0].metadata
+        kw0 = {x: getattr(md, x) for x in ATTRS}
+        where = g.r.choice(["details", "loss_details"])
+        mk = lambda v: Metadata(**{**kw0, "details": dict(md.details), "loss_details": dict(md.loss_details),  # noqa: E731
+                                   where: {**getattr(md, where), "hc": v}})
+        ma, mb = mk(a_), mk(b_)
+        base = [c for c in cells if c.metadata == md][:6]
+        both = [rebuild(c, metadata=ma) for c in base] + [rebuild(c, metadata=mb) for c in base]
+        p1, p2 = both[:], both[::-1]
+        g.r.shuffle(p1)
+        out.append((f"hash-collision-slices-permuted {a_}/{b_}", ("pair", Triangle(p1), Triangle(p2))))
+    except Exception:  # noqa: BLE001
+        pass
     return out
 
 
@@ -209,6 +226,18 @@ def edited_variants(g, t):
                                                         "details": {**md.details, k1: md.loss_details[k1]}}))
     if md.currency is not None and "currency" not in md.details:
         moved.append(("metadata.attribute->detail", {**kw0, "currency": None, "details": {**md.details, "currency": md.currency}}))
+    # values whose CPython hashes collide: -1 / -2, 0 / 2**61-1 (an equality that goes through hash() misses these edits)
+    for a_, b_ in ((-1, -2), (-1.0, -2.0), (0, 2**61 - 1)):
+        moved.append((f"metadata.detail {a_}->{b_}", None))
+        try:
+            ma = Metadata(**{**kw0, "details": {**md.details, "hc": a_}, "loss_details": dict(md.loss_details)})
+            mb = Metadata(**{**kw0, "details": {**md.details, "hc": b_}, "loss_details": dict(md.loss_details)})
+            ta = Triangle([rebuild(x, metadata=ma) if x.metadata == md else x for x in cells])
+            tb = Triangle([rebuild(x, metadata=mb) if x.metadata == md else x for x in cells])
+            out.append((f"metadata.detail-hash-collision {a_}/{b_}", ("pair", ta, tb)))
+        except Exception:  # noqa: BLE001
+            pass
+    moved = [m_ for m_ in moved if m_[1] is not None]
     for nm, kw in moved:
         try:
             m2 = Metadata(**kw)
@@ -277,7 +306,17 @@ def run(ctx):
             continue
         ctx.hist("basis:" + info["basis"])
         ctx.hist("values:" + info["values"])
-        pairs = [(n, t, v, True) for n, v in equal_variants(g, t)] + [(n, t, v, False) for n, v in edited_variants(g, t)]
+        pairs = []
+        for n, v in equal_variants(g, t):
+            if isinstance(v, tuple) and v and v[0] == "pair":
+                pairs.append((n, v[1], v[2], True))
+            else:
+                pairs.append((n, t, v, True))
+        for n, v in edited_variants(g, t):
+            if isinstance(v, tuple) and v and v[0] == "pair":
+                pairs.append((n, v[1], v[2], False))
+            else:
+                pairs.append((n, t, v, False))
         for dn, base, is_edit in derived_bases(g, t):
             pairs.append((dn, t, base, not is_edit))
             pairs += [(n, base, v, True) for n, v in serial_variants(base, tag="(" + dn + ")")]
